@@ -51,6 +51,10 @@ theorem spec_table_total :
         (Spec.VT500.findRow (Spec.VT500.overrides s ++ Spec.VT500.williams s) c).isSome := by
   decide +kernel
 
+/-- Every statement in the arms and prologues of the state functions is in the model's vocabulary
+    (an unknown one would be a silent no-op of the model). -/
+theorem gen_fully_recognised : Gen.ParserTable.unrecognised = [] := by decide
+
 /-- The constants the action bodies of the model hard-code are those of the source. -/
 theorem gen_constants :
     Gen.ParserTable.csiParamSep = 0x3B ∧ Gen.ParserTable.csiSubSep = 0x3A ∧ Gen.ParserTable.csiBase = 10 ∧
